@@ -41,6 +41,14 @@ TEMPLATE = {
     'ftclass': F6.format(m='traffic-class ={N};'), 'flabel': F6.format(m='flow-label ={N};'),
     'vep': V.format(ep='{N}', base=100, off=1, size=8), 'vbase': V.format(ep=5, base='{N}', off=1, size=1),
     'voff': V.format(ep=5, base=100, off='{N}', size=8), 'vsize': V.format(ep=5, base=100, off=1, size='{N}'),
+    'nhoct': 'route 10.0.0.0/24 next-hop 1.2.3.{N}', 'pfxoct': 'route 10.0.{N}.0/24 next-hop 1.2.3.4', 'origoct': R + 'originator-id 10.0.0.{N}',
+    'clusteroct': R + 'cluster-list [ 10.0.0.{N} ]', 'aggroct': R + 'aggregator ( 65000:1.2.3.{N} )', 'rd1oct': R + 'rd 1.2.3.{N}:5 label 100',
+    'rtipoct': R + 'extended-community [ target:1.2.3.{N}:5 ]', 'pathidoct': R + 'path-information 1.2.3.{N}',
+    'vnhoct': 'vpls rd 65000:1 endpoint 5 base 100 offset 1 size 8 next-hop 1.2.3.{N}', 'fdstoct': 'flow route {{ match {{ destination 10.0.{N}.0/24; }} then {{ discard; }} }}'.format(N='{N}'),
+    'rdplain': R + 'rd {N} label 100', 'vrdplain': 'vpls rd {N} endpoint 5 base 100 offset 1 size 8 next-hop 1.2.3.4',
+    'frdplain': 'flow route {{ rd {N}; match {{ destination 10.0.0.0/24; }} then {{ discard; }} }}'.format(N='{N}'),
+    'aggrplain': R + 'aggregator ( {N} )', 'rtplain': R + 'extended-community [ target:{N} ]', 'largetwo': R + 'large-community [ {N}:2 ]',
+    'nhnum': 'route 10.0.0.0/24 next-hop {N}',
 }
 BITS = {'b1': 8, 'b2': 16, 'b4': 32, 'bits20': 20, 'bits6': 6}
 
@@ -159,7 +167,7 @@ def run(tier: str) -> int:
         'session negotiated through real OPENs; TLC (Judge_ExaText) checks accepted <=> the wire format holds the value, nothing raised, and that '
         'the bytes the RFC gives for the value appear in what was sent; distinct = distinct rows'
     )
-    ck.assumptions += ['one numeric position varied at a time around a valid definition; 43 positions; sessions: eBGP asn4+add-path, eBGP 2-byte peer, iBGP',
+    ck.assumptions += ['one numeric position varied at a time around a valid definition; 60 positions (43 numbers, 10 octets of dotted addresses, 7 lone numbers where a pair or an address is expected); sessions: eBGP asn4+add-path, eBGP 2-byte peer, iBGP',
                        'a refusal must come from the parser (located syntax error / error reply), not from the last-resort handler which reports an unexpected exception ("Unexpected error: <Exception>" on the API, "problem parsing configuration file line 0" for a file)']
     res, states = tlc.dump_states('Gen_ExaText', '', 'c18gen', ['u', 'frags'], cfg_text='SPECIFICATION GenSpec\nINVARIANT TableOK\nCHECK_DEADLOCK FALSE\n', workers=8)
     ck.tlc(res, 'Gen_ExaText: rows and expected fragments; invariant TableOK')
